@@ -121,7 +121,11 @@ func stacklessWriteZstd(ctx any) {
 	stacklessWriteZstdOnce.Do(func() {
 		stacklessWriteZstdFunc = stackless.NewFunc(nonblockingWriteZstd)
 	})
-	stacklessWriteZstdFunc(ctx)
+	if !stacklessWriteZstdFunc(ctx) {
+		// The stackless worker queue is full: compress on the caller's goroutine
+		// instead of silently dropping the data.
+		nonblockingWriteZstd(ctx)
+	}
 }
 
 func nonblockingWriteZstd(ctxv any) {
